@@ -162,6 +162,19 @@ pub struct Flat {
     inner: Inner,
 }
 
+/// floating-point distribution field (sort-and-merge keeps every observation): values at the edge
+/// of the number line, including +inf which the EMF format later clamps
+#[aggregate]
+#[metrics]
+pub struct FRec {
+    #[aggregate(key)]
+    name: String,
+    #[aggregate(strategy = Sum)]
+    total: u64,
+    #[aggregate(strategy = Histogram<f64, SortAndMerge>)]
+    lat: f64,
+}
+
 /// entry mode + `ref`, no key: `Aggregate::insert_and_send_to`
 #[aggregate(ref)]
 #[metrics]
@@ -1294,6 +1307,53 @@ fn main() {
         }
     }
     all.histories += many_key_runs;
+
+    // ---- phase 2c: a floating-point distribution field with values at the edge of the number line
+    {
+        let edge: [f64; 8] = [0.0, -0.0, 5e-324, 1.5, 1.5, f64::MAX, f64::INFINITY, f64::INFINITY];
+        for n in 1..=edge.len() {
+            let t = test_entry_sink();
+            let mut tap = Tap::new(t.inspector);
+            let mut agg = KeyedAggregator::<FRec>::new(t.sink);
+            for (i, v) in edge[..n].iter().enumerate() {
+                agg.merge(FRec { name: format!("k{}", i % 2), total: 1, lat: *v }.close());
+            }
+            agg.flush();
+            all.histories += 1;
+            let got = tap.take();
+            for key in 0..2usize.min(n) {
+                let want: Vec<f64> = edge[..n].iter().enumerate().filter(|(i, _)| i % 2 == key).map(|(_, v)| *v).collect();
+                let e = got.iter().find(|e| e.values.get("name").map(|s| s.as_str()) == Some(&format!("k{key}")));
+                let (sum, count, values) = match e {
+                    Some(e) => {
+                        let m = e.metrics.get("lat");
+                        let mut vals: Vec<f64> = Vec::new();
+                        for o in m.map(|m| m.distribution.clone()).unwrap_or_default() {
+                            match o {
+                                Observation::Floating(f) => vals.push(f),
+                                Observation::Unsigned(u) => vals.push(u as f64),
+                                Observation::Repeated { total, occurrences } => (0..occurrences).for_each(|_| vals.push(total / occurrences as f64)),
+                                _ => {}
+                            }
+                        }
+                        (e.metrics.get("total").map(|m| m.as_u64()).unwrap_or(0), vals.len(), vals)
+                    }
+                    None => (0, 0, vec![]),
+                };
+                let mut sorted_want = want.clone();
+                sorted_want.sort_by(|a, b| a.partial_cmp(b).unwrap());
+                let mut sorted_got = values.clone();
+                sorted_got.sort_by(|a, b| a.partial_cmp(b).unwrap());
+                if sum != want.len() as u64 || count != want.len() || sorted_got != sorted_want {
+                    all.v.add(
+                        "distribution-field:observations-not-conserved",
+                        format!("key k{key}: inputs {want:?} (Sum field counts {}), the aggregate's sort-and-merge distribution holds {count} observations {values:?}, Sum field {sum}", want.len()),
+                        json!({"inputs": edge[..n].iter().map(|v| format!("{v:e}")).collect::<Vec<_>>(), "key": format!("k{key}"), "distribution": values.iter().map(|v| format!("{v:e}")).collect::<Vec<_>>()}),
+                    );
+                }
+            }
+        }
+    }
 
     let t_phase2 = rep.start.elapsed().as_secs_f64();
     // ---- phase 3: WorkerSink driven sequentially; one long-lived pair of instances per thread ---
